@@ -209,4 +209,9 @@ theorem ratrec_sound (x y N D : Int) :
 
 example : ratrecCore 5 7 3 1 = .ok (-2, 1) := by decide
 
+/-- the loop of `ratrec` always terminates within the fuel of the model (no `fuel-exhausted` answer exists) -/
+theorem ratrec_terminates (x y N D : Int) : ratrecCore x y N D ≠ .error .fuel := ratrecCore_no_fuel x y N D
+
+example : ratrecCore 5 7 1 1 = .error .valueError := by decide
+
 end MpycV.C25
